@@ -21,8 +21,8 @@ REQUIRED = ['backends/gdb_plugin/plugin.py:Plugin.process_message', 'backends/gd
 
 def plan(tier, seed):
     if tier == 'quick':
-        return [{'n': 12, 'gdb_shim': True, 'len': [20, 150]} for _ in range(16)]
-    return [{'n': 300, 'gdb_shim': True, 'len': [20, 300]} for _ in range(64)]
+        return [{'n': 12, 'gdb_shim': True, 'len': [20, 150]} for _ in range(14)] + [{'mode': 'tierb', 'n': 2, 'gdb_shim': True, 'len': [20, 120]} for _ in range(2)]
+    return [{'n': 300, 'gdb_shim': True, 'len': [20, 300]} for _ in range(56)] + [{'mode': 'tierb', 'n': 15, 'gdb_shim': True, 'len': [20, 300]} for _ in range(8)]
 
 
 def role_name(first_rec, side):
@@ -32,147 +32,233 @@ def role_name(first_rec, side):
     return 'unknown type'
 
 
-def run_one(ctx, rng, cands, spec):
-    gs = gdbsim.GdbSession()
-    g = gs.gdb
+def gen_sequence(rng, cands, spec):
+    """abstract event sequence with the model's expectations (independent of the backend that executes it)"""
     n_addr = rng.randint(1, 4)
-    slots = [None] * n_addr          # per address slot: current logical connection key or None
-    addr_of_slot = [None] * n_addr   # address once allocated
-    ever_closed_addr = []
-    model = []                       # logical connections: dict(name, open, sim, pos, side, slot)
-    kinds = []
-    length = rng.randint(*spec['len'])
-    reuse = destroys = 0
-    case_events = []
-    for step in range(length):
+    slots = [None] * n_addr
+    used = [False] * n_addr
+    model = []
+    events = []
+    for step in range(rng.randint(*spec['len'])):
         r = rng.random()
         slot = rng.randrange(n_addr)
         thread = rng.choice([1, 1, 1, 2, 3])
-        n0, x0 = gs.mark()
         if r < 0.78:
-            # ---- a message -----------------------------------------------------------------------------------------
             key = slots[slot]
             opened_now = False
             if key is None:
                 side = rng.choice(['client', 'server'])
-                sim = history.generate(rng, cands, rng.randint(8, 60), {'first': rng.choice(['get_registry', 'get_registry', 'sync', None]),
-                                                                        'hot': rng.choice([0.1, 0.4])})
+                sim = history.generate(rng, cands, rng.randint(8, 60), {'first': rng.choice(['get_registry', 'get_registry', 'sync', None]), 'hot': rng.choice([0.1, 0.4])})
                 key = len(model)
-                if addr_of_slot[slot] is None:
-                    c = gs.new_connection(key, side)
-                    addr_of_slot[slot] = c['addr']
-                else:
-                    old = [m for m in model if m['slot'] == slot][-1]
-                    gs.reuse_address(key, old['key'], side)
-                    reuse += 1
-                model.append({'key': key, 'name': streams.conn_name(len(model)), 'open': True, 'sim': sim, 'pos': 0, 'side': side, 'slot': slot})
+                prev = [m for m in model if m['slot'] == slot]
+                model.append({'key': key, 'name': streams.conn_name(len(model)), 'sim': sim, 'pos': 0, 'side': side, 'slot': slot,
+                              'reuse_of': prev[-1]['key'] if prev else None})
                 slots[slot] = key
+                used[slot] = True
                 opened_now = True
             m = model[key]
             if m['pos'] >= len(m['sim'].hist):
                 continue
             rec = m['sim'].hist[m['pos']]
             m['pos'] += 1
-            ev = gs.event_for(key, rec, rng, thread)
-            kinds.append('m%d' % slot + ('!' if opened_now else ''))
-            case_events.append(['message', slot, thread, rec['iface'], rec['name']])
-            stop, exc = gs.deliver(ev)
-            ctx.ev()
-            case = {'events': case_events[-40:], 'step': step}
-            if exc is not None:
-                ctx.violation('stop-exception', 'message %s.%s on address slot %d (thread %d): %s: %r escaped stop()' % (
-                    rec['iface'], rec['name'], slot, thread, type(exc).__name__, exc), case)
-                return
-            if stop:
-                ctx.violation('unexpected-halt', 'no breakpoint matcher is set but stop() returned True at %s.%s' % (rec['iface'], rec['name']), case)
-                return
-            lines = gs.written_since(n0)
-            items = [outline.parse_line(l) for l in lines]
+            events.append({'type': 'msg', 'slot': slot, 'key': key, 'thread': thread, 'rec': rec, 'side': m['side'], 'opened_now': opened_now,
+                           'name': m['name'], 'role': role_name(rec, m['side']) if opened_now else None, 'reuse_of': m['reuse_of'] if opened_now else None})
+        else:
+            key = slots[slot]
+            what = 'never-seen' if not used[slot] else ('known' if key is not None else 'already-closed')
+            events.append({'type': 'destroy', 'slot': slot, 'key': key, 'thread': thread, 'what': what, 'name': model[key]['name'] if key is not None else None})
+            if key is not None:
+                slots[slot] = None
+    return events, model
+
+
+def execute_shim(events, rng):
+    """tier A: the plugin on the ctypes gdb module"""
+    gs = gdbsim.GdbSession()
+    obs = []
+    slot_key = {}
+    for ev in events:
+        n0, x0 = gs.mark()
+        if ev['type'] == 'msg':
+            if ev['opened_now']:
+                if ev['reuse_of'] is None:
+                    gs.new_connection(ev['key'], ev['side'])
+                else:
+                    gs.reuse_address(ev['key'], ev['reuse_of'], ev['side'])
+                slot_key[ev['slot']] = ev['key']
+            stop, exc = gs.deliver(gs.event_for(ev['key'], ev['rec'], rng, ev['thread']))
+        else:
+            if ev['what'] == 'never-seen':
+                addr = gs.world.connection()
+            else:
+                addr = gs.conns[slot_key[ev['slot']]]['addr']
+            stop, exc = gs.sim.deliver({'kind': 'destroy', 'connection': addr, 'thread': ev['thread']})
+        obs.append({'lines': gs.written_since(n0), 'stop': stop, 'exc': None if exc is None else '%s: %r' % (type(exc).__name__, exc)})
+    conns = [(c.name(), c.is_open(), len(c.messages())) for c in gs.cm.connections()]
+    return obs, conns
+
+
+def execute_gdb(events, rng):
+    """tier B: the plugin inside real gdb 13 on the synthetic libwayland-ABI inferior"""
+    import re
+    from .. import gdbreal
+    script = gdbreal.Script()
+    conn_of_key = {}
+    seqs = []
+    for ev in events:
+        if ev['type'] == 'msg':
+            if ev['opened_now']:
+                if ev['reuse_of'] is None:
+                    conn_of_key[ev['key']] = script.conn(ev['side'])
+                else:
+                    conn_of_key[ev['key']] = script.reuse(conn_of_key[ev['reuse_of']], ev['side'])
+            rec = ev['rec']
+            request = rec['send_c']
+            sending = request if ev['side'] == 'client' else not request
+            args = []
+            for a in rec['args']:
+                a = dict(a)
+                if a['k'] == 'o':
+                    a['decl'] = None if a['v'] is None else a['v']['iface']
+                args.append(a)
+            seqs.append(script.event(conn_of_key[ev['key']], ev['thread'], sending, rng.choice([0, 1]), rec['iface'], rec['id'], rec['name'],
+                                     gdbsim.signature_of(rng, {'args': args}), args))
+        else:
+            if ev['what'] == 'never-seen':
+                seqs.append(script.destroy(-1))
+            else:
+                k = [e['key'] for e in events[:events.index(ev)] if e['type'] == 'msg' and e['slot'] == ev['slot']][-1]
+                seqs.append(script.destroy(conn_of_key[k]))
+    r = gdbreal.run(script, argv_opts=['-C'])
+    if not any(x['t'] == 'loaded' for x in r['records']):
+        raise RuntimeError('the plugin did not load inside gdb: ' + r['stderr'][-300:])
+    by_seq = {}
+    halts = set()
+    for x in r['records']:
+        if x['t'] == 'write' and not re.match(r'^(WARNING|ERROR|INFO|DEBUG|CRITICAL):', x['text']):
+            by_seq.setdefault(x['seq'], []).extend(l for l in x['text'].split('\n') if l)
+        elif x['t'] == 'halt':
+            halts.add(x['seq'])
+    exc_text = 'Python Exception' in r['stderr'] or 'Traceback (most recent call last)' in r['stderr']
+    obs = []
+    for s in seqs:
+        obs.append({'lines': by_seq.get(s, []), 'stop': s in halts,
+                    'exc': ('a Python exception was printed by gdb (see stderr): ' + r['stderr'][-400:]) if (s in halts and exc_text) else None})
+    if not any(x['t'] == 'exited' for x in r['records']):
+        obs.append({'lines': [], 'stop': True, 'exc': 'the inferior did not run to its end under gdb: ' + r['stderr'][-300:]})
+    return obs, None
+
+
+def judge(ctx, events, model, obs, conns, tier):
+    case_events = []
+    for step, (ev, ob) in enumerate(zip(events, obs)):
+        ctx.ev()
+        case_events.append([ev['type'], ev['slot'], ev['thread']] + ([ev['rec']['iface'], ev['rec']['name']] if ev['type'] == 'msg' else [ev['what']]))
+        case = {'events': case_events[-40:], 'step': step, 'tier': tier}
+        lines = [l for l in ob['lines'] if not l.startswith('Warning: Got message')]
+        items = [outline.parse_line(l) for l in lines]
+        if ev['type'] == 'msg':
+            rec = ev['rec']
+            if ob['exc'] is not None:
+                ctx.violation('stop-exception', '[tier %s] message %s.%s on address slot %d (thread %d): %s escaped stop()' % (
+                    tier, rec['iface'], rec['name'], ev['slot'], ev['thread'], ob['exc']), case)
+                return False
+            if ob['stop']:
+                ctx.violation('unexpected-halt', '[tier %s] no breakpoint matcher is set but the program was halted at %s.%s' % (tier, rec['iface'], rec['name']), case)
+                return False
             notices = [i for i in items if i['kind'] == 'notice']
             msgs = [i for i in items if i['kind'] == 'msg']
-            if opened_now:
-                role = role_name(rec, m['side'])
-                if len(notices) != 1 or notices[0]['what'] != 'New' or notices[0]['conn'] != m['name'] or notices[0]['role'] != role:
-                    ctx.violation('open-notice', 'first message on address slot %d: expected `New %s connection %s`, got %r' % (slot, role, m['name'], lines[:3]), case)
-                    return
+            if ev['opened_now']:
+                if len(notices) != 1 or notices[0]['what'] != 'New' or notices[0]['conn'] != ev['name'] or notices[0]['role'] != ev['role']:
+                    ctx.violation('open-notice', '[tier %s] first message on address slot %d: expected `New %s connection %s`, got %r' % (
+                        tier, ev['slot'], ev['role'], ev['name'], lines[:3]), case)
+                    return False
             elif notices:
-                ctx.violation('extra-notice', 'unexpected %r' % notices[0]['text'], case)
-                return
+                ctx.violation('extra-notice', '[tier %s] unexpected %r' % (tier, notices[0]['text']), case)
+                return False
             if len(msgs) != 1:
-                ctx.violation('message-lost', '%s.%s on connection %s produced %r' % (rec['iface'], rec['name'], m['name'], lines[:3]), case)
-                return
-            exp = history.expected_text(rec, m['side'], m['name'])
+                ctx.violation('message-lost', '[tier %s] %s.%s on connection %s produced %r' % (tier, rec['iface'], rec['name'], ev['name'], lines[:3]), case)
+                return False
+            exp = history.expected_text(rec, ev['side'], ev['name'])
             if any(a['k'] == 'a' for a in rec['args']):
-                ok = msgs[0]['conn'] == m['name'] and msgs[0]['name'] == rec['name'] and [msgs[0]['target']['type'], msgs[0]['target']['id'], msgs[0]['target']['gen']] == \
+                ok = msgs[0]['conn'] == ev['name'] and msgs[0]['name'] == rec['name'] and [msgs[0]['target']['type'], msgs[0]['target']['id'], msgs[0]['target']['gen']] == \
                     [rec['gt']['target'][0], rec['gt']['target'][1], history.letters(rec['gt']['target'][2])]
                 prob = None if ok else 'header differs'
             else:
                 prob, _, _ = streams.compare_line(msgs[0]['text'], exp, [a['v'] / 256.0 for a in rec['args'] if a['k'] == 'f'])
             if prob:
-                ctx.violation('wrong-line', 'connection %s (address slot %d): expected %r, shown %r' % (m['name'], slot, exp, msgs[0]['text'][:250]), case)
-                return
-            if thread != 1:
+                ctx.violation('wrong-line', '[tier %s] connection %s (address slot %d): expected %r, shown %r' % (tier, ev['name'], ev['slot'], exp, msgs[0]['text'][:250]), case)
+                return False
+            if ev['thread'] != 1:
                 ctx.count('messages_on_other_threads')
         else:
-            # ---- wl_connection_destroy ---------------------------------------------------------------------------------
-            destroys += 1
-            key = slots[slot]
-            if addr_of_slot[slot] is None:
-                addr = gs.world.connection()      # a connection that never carried a message
-                what = 'never-seen'
-            else:
-                addr = addr_of_slot[slot]
-                what = 'known' if key is not None else 'already-closed'
-            kinds.append('d%d:%s' % (slot, what))
-            case_events.append(['destroy', slot, thread, what])
-            stop, exc = gs.sim.deliver({'kind': 'destroy', 'connection': addr, 'thread': thread})
-            ctx.ev()
-            ctx.count('destroy_' + what.replace('-', '_'))
-            case = {'events': case_events[-40:], 'step': step}
-            if exc is not None:
-                ctx.violation('destroy-exception-' + what, 'wl_connection_destroy of a %s connection: %s: %r escaped stop() (under real gdb this also halts the program)' % (
-                    what, type(exc).__name__, exc), case)
-                return
-            if stop:
-                ctx.violation('unexpected-halt', 'wl_connection_destroy halted the program', case)
-                return
-            lines = gs.written_since(n0)
-            notices = [outline.parse_line(l) for l in lines]
-            if key is not None:
-                m = model[key]
-                if len(notices) != 1 or notices[0]['kind'] != 'notice' or notices[0]['what'] != 'Closed' or notices[0]['conn'] != m['name']:
-                    ctx.violation('close-notice', 'destroy of connection %s: got %r' % (m['name'], lines[:3]), case)
-                    return
-                m['open'] = False
-                slots[slot] = None
+            ctx.count('destroy_' + ev['what'].replace('-', '_'))
+            if ob['exc'] is not None:
+                ctx.violation('destroy-exception-' + ev['what'], '[tier %s] wl_connection_destroy of a %s connection: %s escaped stop() (under real gdb this also halts the program)' % (
+                    tier, ev['what'], ob['exc']), case)
+                return False
+            if ob['stop']:
+                ctx.violation('unexpected-halt', '[tier %s] wl_connection_destroy of a %s connection halted the program' % (tier, ev['what']), case)
+                return False
+            if ev['key'] is not None:
+                if len(items) != 1 or items[0]['kind'] != 'notice' or items[0]['what'] != 'Closed' or items[0]['conn'] != ev['name']:
+                    ctx.violation('close-notice', '[tier %s] destroy of connection %s: got %r' % (tier, ev['name'], lines[:3]), case)
+                    return False
             elif lines:
-                ctx.violation('extra-output', 'destroy of a %s connection printed %r' % (what, lines[:3]), case)
-                return
-        # manager-level agreement after every event
-        conns = gs.cm.connections()
-        if [c.name() for c in conns] != [m['name'] for m in model] or [c.is_open() for c in conns] != [m['open'] for m in model]:
-            ctx.violation('connection-list', 'connections %r, model %r' % ([(c.name(), c.is_open()) for c in conns], [(m['name'], m['open']) for m in model]),
-                          {'events': case_events[-40:], 'step': step})
-            return
-        for c, m in zip(conns, model):
-            if len(c.messages()) != m['pos']:
-                ctx.violation('message-count', 'connection %s has %d messages, %d were sent to it' % (m['name'], len(c.messages()), m['pos']), {'events': case_events[-40:]})
-                return
-    ctx.count('sequences')
+                ctx.violation('extra-output', '[tier %s] destroy of a %s connection printed %r' % (tier, ev['what'], lines[:3]), case)
+                return False
+    if len(obs) > len(events) and obs[-1]['exc']:
+        ctx.violation('inferior-stuck', '[tier %s] %s' % (tier, obs[-1]['exc']), {'events': case_events[-40:], 'tier': tier})
+        return False
+    if conns is not None:
+        open_keys = set()
+        want = []
+        for m in model:
+            want.append([m['name'], None, m['pos']])
+        state = {}
+        for ev in events:
+            if ev['type'] == 'msg' and ev['opened_now']:
+                state[ev['key']] = True
+            elif ev['type'] == 'destroy' and ev['key'] is not None:
+                state[ev['key']] = False
+        started = [m for m in model if m['key'] in state]
+        want = [(m['name'], state[m['key']], m['pos']) for m in started]
+        if conns != want:
+            ctx.violation('connection-list', '[tier %s] connections %r, model %r' % (tier, conns, want), {'events': case_events[-40:], 'tier': tier})
+            return False
+    return True
+
+
+def run_one(ctx, rng, cands, spec, tier='A'):
+    events, model = gen_sequence(rng, cands, spec)
+    try:
+        obs, conns = execute_shim(events, rng) if tier == 'A' else execute_gdb(events, rng)
+    except Exception as e:
+        ctx.inconc('tier %s execution failed: %s: %r' % (tier, type(e).__name__, e))
+        return
+    ok = judge(ctx, events, model, obs, conns, tier)
+    kinds = [('m%d' % e['slot'] + ('!' if e['opened_now'] else '')) if e['type'] == 'msg' else 'd%d:%s' % (e['slot'], e['what']) for e in events]
+    ctx.count('sequences' if tier == 'A' else 'tierb_sequences')
+    reuse = sum(1 for e in events if e['type'] == 'msg' and e['opened_now'] and e['reuse_of'] is not None)
     ctx.count('address_reuses', reuse)
     for a, b in zip(kinds, kinds[1:]):
-        ctx.setadd('transitions', a.split(':')[-1][:1] + a[-1:] + '>' + b.split(':')[-1][:1] + b[-1:] if False else (a[0] + (a.split(':')[1] if ':' in a else ('!' if a.endswith('!') else '')) + '>' + b[0] + (b.split(':')[1] if ':' in b else ('!' if b.endswith('!') else ''))))
-    if destroys and reuse:
-        ctx.sig(h64(kinds))
+        ctx.setadd('transitions', (a[0] + (a.split(':')[1] if ':' in a else ('!' if a.endswith('!') else ''))) + '>' + (b[0] + (b.split(':')[1] if ':' in b else ('!' if b.endswith('!') else ''))))
+    if any(e['type'] == 'destroy' for e in events) and reuse:
+        ctx.sig([tier, h64(kinds)])
     if len(ctx.samples) < 2:
-        ctx.sample({'event_kinds_head': kinds[:40]})
+        ctx.sample({'tier': tier, 'event_kinds_head': kinds[:40]})
 
 
 def run(ctx, spec):
     env.setup(spec)
     cands = wlxml.shipped(env.REPO)
+    if spec.get('mode') == 'tierb':
+        from .. import gdbreal
+        if not gdbreal.available():
+            ctx.count('tierb_skipped_no_gdb_or_inferior')
+            return
     for i in range(spec['n']):
-        run_one(ctx, ctx.rng, cands, spec)
+        run_one(ctx, ctx.rng, cands, spec, 'B' if spec.get('mode') == 'tierb' else 'A')
         if ctx.out_of_time():
             break
 
